@@ -54,6 +54,9 @@ type World struct {
 	q    evHeap
 	step int // index of the plan step being executed (for violation reports)
 
+	transformers map[int]*didtransformer.Transformer // C18: one per option set per run
+	retainedRes  []retainedResolution
+
 	Proto    protocol.Protocol
 	Parser   *operationparser.Parser // batch-side parser (observers, chain filter)
 	Applier  *operationapplier.Applier
@@ -279,6 +282,7 @@ func (w *World) Finish() {
 		o.finalChecks()
 	}
 	w.Model.finalChecks()
+	w.checkRetainedResolutions()
 }
 
 var _ = didtransformer.New
